@@ -31,7 +31,15 @@ class Boom(Exception):
 EXN = {'RuntimeError': RuntimeError, 'ValueError': ValueError, 'KeyError': KeyError,
        'TypeError': TypeError, 'IndexError': IndexError, 'AttributeError': AttributeError,
        'OtherError': Boom}
-FAULT_NAMES = sorted(EXN)
+FAULT_NAMES = sorted(EXN)          # the Exception subclasses of the random fault scripts
+# asyncio.CancelledError (a BaseException since 3.8): only placed by directed scenarios, at application callbacks
+CANCEL = 'Cancelled'
+EXN[CANCEL] = asyncio.CancelledError
+
+
+def xname(e):
+    """Exception -> constructor of the model's exn (Listener.Cancelled stands for asyncio.CancelledError)."""
+    return CANCEL if isinstance(e, asyncio.CancelledError) else exn_name(e)
 
 
 class Rec:
@@ -46,11 +54,28 @@ class Rec:
         if self.active:
             self.segs[-1].append(e)
 
-    def fault(self):
+    def pop(self):
+        """Next entry of the current item's fault script (None = no fault here)."""
         if self.active and self.script:
-            e = self.script.pop(0)
-            if e is not None:
-                raise EXN[e]('injected')
+            return self.script.pop(0)
+        return None
+
+    def fault(self):
+        e = self.pop()
+        if e is not None:
+            raise EXN[e]('injected')
+
+    def cancelled_job(self, as_task):
+        """A job of the application that the application has cancelled (asyncio): a future, or a task that has
+        not run yet.  Awaiting it (or asking a cancelled future for its result) raises CancelledError in the
+        caller although nobody cancelled the caller."""
+        loop = asyncio.get_running_loop()
+        if as_task:
+            job = loop.create_task(asyncio.sleep(3600))
+        else:
+            job = loop.create_future()
+        job.cancel()
+        return job
 
     def new_segment(self, script=()):
         self.segs.append([])
@@ -58,7 +83,9 @@ class Rec:
 
 
 class AppCb:
-    """Application callback number n."""
+    """Application callback number n: a plain callable given to emit(..., callback=).  What it does when the
+    acknowledgement arrives is the next entry of the current item's fault script: return, raise an exception,
+    or (Cancelled) ask a job the application cancelled for its result."""
 
     def __init__(self, n, rec):
         self.n = n
@@ -66,13 +93,54 @@ class AppCb:
 
     def __call__(self, *args):
         self.rec.eff(('cb', self.n, args))
-        self.rec.fault()
+        e = self.rec.pop()
+        if e == CANCEL:
+            try:
+                job = self.rec.cancelled_job(False)
+            except RuntimeError:               # threaded manager, no event loop
+                raise asyncio.CancelledError()
+            job.result()
+        elif e is not None:
+            raise EXN[e]('injected')
 
 
 class AsyncAppCb(AppCb):
+    """The same as a coroutine function; Cancelled: it awaits the cancelled job."""
+
     async def __call__(self, *args):
         self.rec.eff(('cb', self.n, args))
-        self.rec.fault()
+        e = self.rec.pop()
+        if e == CANCEL:
+            await self.rec.cancelled_job(self.n % 4 == 3)
+        elif e is not None:
+            raise EXN[e]('injected')
+
+
+def function_cb(n, rec, coro):
+    """Callback number n as a real function / coroutine function object (not a callable instance)."""
+    proto = (AsyncAppCb if coro else AppCb)(n, rec)
+    if coro:
+        async def on_ack(*args):
+            return await proto(*args)
+    else:
+        def on_ack(*args):
+            return proto(*args)
+    on_ack.n = n
+    on_ack.app_callback = True
+    return on_ack
+
+
+def is_app_cb(cb):
+    return isinstance(cb, AppCb) or getattr(cb, 'app_callback', False)
+
+
+def make_cb(n, rec, is_async):
+    """The callable registered for callback number n: under asyncio odd numbers are coroutine functions
+    (Listener.cb_is_coro); numbers 2, 3 mod 4 are function objects, the others callable instances."""
+    coro = bool(is_async and n % 2)
+    if n % 4 >= 2:
+        return function_cb(n, rec, coro)
+    return (AsyncAppCb if coro else AppCb)(n, rec)
 
 
 class Log:
@@ -80,7 +148,7 @@ class Log:
         self.rec = rec
 
     def exception(self, *a, **k):
-        self.rec.eff(('logexc', exn_name(sys.exc_info()[1])))
+        self.rec.eff(('logexc', xname(sys.exc_info()[1])))
 
     def error(self, *a, **k):
         self.rec.eff(('logerr',))
@@ -246,10 +314,10 @@ class SyncMgr(PubSubManager, Spy):
             if it['kind'] == 'raise':
                 raise EXN[it['e']]('listen failed')
             if it['kind'] == 'ack':
-                try:
+                try:                         # the server's own task delivers the ACK, not the listener
                     self.trigger_callback(it['sid'], it['id'], it['args'])
-                except Exception:
-                    rec.eff(('logexc', exn_name(sys.exc_info()[1])))
+                except (Exception, asyncio.CancelledError):
+                    rec.eff(('logexc', xname(sys.exc_info()[1])))
                 continue
             yield it['m']
 
@@ -275,10 +343,10 @@ class AsyncMgr(AsyncPubSubManager, AsyncSpy):
             if it['kind'] == 'raise':
                 raise EXN[it['e']]('listen failed')
             if it['kind'] == 'ack':
-                try:
+                try:                         # the server's own task delivers the ACK, not the listener
                     await self.trigger_callback(it['sid'], it['id'], it['args'])
-                except Exception:
-                    rec.eff(('logexc', exn_name(sys.exc_info()[1])))
+                except (Exception, asyncio.CancelledError):
+                    rec.eff(('logexc', xname(sys.exc_info()[1])))
                 continue
             yield it['m']
 
@@ -313,7 +381,7 @@ def apply_plan_sync(mgr, rec, plan):
         elif op[0] == 'enter':
             mgr.enter_room(op[1], op[2], op[3])
         elif op[0] == 'emitcb':
-            mgr.emit(op[1], 'x', namespace=op[2], room=op[3], callback=AppCb(op[4], rec))
+            mgr.emit(op[1], 'x', namespace=op[2], room=op[3], callback=make_cb(op[4], rec, False))
 
 
 async def apply_plan_async(mgr, rec, plan):
@@ -323,8 +391,7 @@ async def apply_plan_async(mgr, rec, plan):
         elif op[0] == 'enter':
             await mgr.enter_room(op[1], op[2], op[3])
         elif op[0] == 'emitcb':
-            cls = AsyncAppCb if op[4] % 2 else AppCb
-            await mgr.emit(op[1], 'x', namespace=op[2], room=op[3], callback=cls(op[4], rec))
+            await mgr.emit(op[1], 'x', namespace=op[2], room=op[3], callback=make_cb(op[4], rec, True))
 
 
 def run_listener(is_async, plan, items, loop=None):
@@ -343,6 +410,7 @@ def run_listener(is_async, plan, items, loop=None):
             except Exception as e:      # the listener died: never what the model predicts
                 rec.eff(('escaped', exn_name(e)))
             await asyncio.sleep(0)
+            await asyncio.sleep(0)      # a cancelled job of the application finishes
             rec.active = False
             return init
         init = loop.run_until_complete(go())
@@ -354,6 +422,8 @@ def run_listener(is_async, plan, items, loop=None):
         rec.active = True
         try:
             mgr._thread()
+        except asyncio.CancelledError:  # a BaseException left _thread (the model's ending Stopped)
+            pass
         except Exception as e:          # the listener died: never what the model predicts
             rec.eff(('escaped', exn_name(e)))
         rec.active = False
@@ -366,7 +436,7 @@ def cb_value(cb):
     """A callback object as the model's cb_pv."""
     if cb is None:
         return None
-    if isinstance(cb, AppCb):
+    if is_app_cb(cb):
         return coqio.Obj(cb.n)
     if isinstance(cb, functools.partial):
         return ('partial',) + tuple(cb.args)
@@ -378,7 +448,7 @@ def cb_value(cb):
 def slot_term(cb):
     if isinstance(cb, itertools.count):
         return '(Counter (%d)%%Z)' % int(repr(cb)[6:-1])
-    if isinstance(cb, AppCb):
+    if is_app_cb(cb):
         return '(CbApp %d%%N)' % cb.n
     if isinstance(cb, functools.partial):
         a = cb.args
